@@ -75,7 +75,7 @@ _STAT = re.compile(r"(\d+) states generated, (\d+) distinct states found")
 
 def run_tlc(work, module, cfg=None, constants=None, dump=True, workers=16, timeout=1800,
             simulate=None, depth=None, seed=None, env=None, extra=None, invariants=None,
-            cfg_extra=None, deadlock=False, init="Init", next_="Next"):
+            cfg_extra=None, deadlock=False, init="Init", next_="Next", tolerate=()):
     """Run TLC on <module>.tla in `work`.  If `constants` is given a cfg is written from it
     (literal constants), otherwise `cfg` names an existing cfg file.  Returns a dict with
     states (distinct), transitions (generated), out (stdout), dump (path or None)."""
@@ -126,12 +126,18 @@ def run_tlc(work, module, cfg=None, constants=None, dump=True, workers=16, timeo
         pass
     ok = ("Model checking completed. No error has been found." in out) or \
          (simulate is not None and "Error:" not in out and p.returncode in (0,))
+    stopped = None
+    if not ok and simulate is not None:
+        for t in tolerate:
+            if t in out:
+                stopped = t          # a sampling run that ended early for a tolerated reason keeps what it produced
+                ok = True
     if not ok:
         tail = "\n".join(out.splitlines()[-60:])
         raise MachineryError("TLC failed on %s (rc=%s):\n%s" % (module, p.returncode, tail))
     res = {"states": int(m.group(2)) if m else 0, "transitions": int(m.group(1)) if m else 0,
            "out": out, "dump": dump_path, "tlc_wall_s": round(time.time() - t0, 2),
-           "module": module}
+           "module": module, "stopped_early": stopped}
     return res
 
 
@@ -139,8 +145,10 @@ def simulate_cases(work, module, constants, num, depth, seed, invariant="Emit", 
     """Random behaviours beyond the exhaustive bound: TLC -simulate (num behaviours per worker, 16 workers) with an
     invariant that PrintT's <<tag, ...>> for the states of interest.  TLC evaluates the invariant on every successor it
     generates, so each behaviour contributes all one-step extensions of its prefixes.  Returns (result, distinct values)."""
+    # exact rational arithmetic on TLC's 32-bit integers can overflow on long random behaviours: that ends the sampling
+    # run (the cases printed before it are kept and the fact is recorded), it is not a verdict of any kind
     res = run_tlc(work, module, constants=constants, invariants=[invariant], simulate="num=%d" % num, depth=depth,
-                  seed=seed, dump=False, timeout=timeout, init=init, next_=next_)
+                  seed=seed, dump=False, timeout=timeout, init=init, next_=next_, tolerate=("Overflow when computing",))
     seen, vals = set(), []
     for v in printed_tuples(res["out"], tag):
         k = json.dumps(v)
@@ -502,6 +510,8 @@ class Run:
         self.transitions += res["transitions"]
         self.tlc_runs.append({"module": res["module"], "what": what, "states": res["states"],
                               "transitions": res["transitions"], "wall_s": res["tlc_wall_s"]})
+        if res.get("stopped_early"):
+            self.tlc_runs[-1]["stopped_early"] = res["stopped_early"]
 
     def sample(self, s, limit=6):
         if len(self.samples) < limit:
